@@ -209,7 +209,9 @@ def map(
     # Distance to the plane
     diagonal = np.sqrt(ndim)
     xyz = position - origin
-    selection_distance = 0.5 * diagonal * (dz if thick else cell_size)
+    # A cell can reach half its diagonal away from its center; for a thick map the
+    # slab itself extends dz/2 on each side of the plane.
+    selection_distance = 0.5 * diagonal * ((cell_size + dz) if thick else cell_size)
 
     normal = basis.n
     vec_u = basis.u
